@@ -137,6 +137,22 @@ add('C12', 'model_checking', 'stateless exploration of all thread interleavings 
     'synchronous twin minus the failing operation, the wrapped cassette is closed last, no storage call happens under the buffer lock, no deadlock.',
     'join(timeout) modelled as not timing out; opcode-granular preemption over-approximates CPython; the schedule bound completed per workload is listed in the evidence.')
 
+add('C08', 'model_checking', 'stateless exploration of all parent/worker schedules up to a preemption bound of the real Equalizer on a virtual multiprocessing + virtual time layer; real-process conformance in thorough',
+    'The real Equalizer code (comparison loop, worker loop, timeout / kill / recycle) runs on scheduler-owned Queue / Event / Process / os.kill / time; every '
+    'behaviour vector over 11 per-recording behaviours (equal, different, three kinds of raise, bare status, worker exits, hangs, answers just after the parent '
+    'gave up, hangs trapping SIGTERM, replay spawning a child) up to length 2 x 12 configurations at preemption bound 2 and length 3 on two configurations '
+    '(thorough: 3 full / 4 reduced, bound 2) is explored under every schedule: one comparison per id in input order, verdict / failure text / attached replay '
+    '/ kept results of that id alone; in-process mode agrees; thorough replays 700 late-free vectors on real multiprocessing and compares verdict sequences.',
+    'Virtual process = real worker loop on a shallow copy of the Equalizer (fork semantics); zero-time steps, time advances only on an expired parent poll; '
+    'killing a polling worker poisons that queue.')
+add('C13', 'model_checking', 'stateless schedule exploration of the real Equalizer on virtual multiprocessing / virtual time with consumer behaviours; real-process runs in thorough',
+    'Every vector over {ok, exit, hang, late answer, hang trapping SIGTERM} up to length 3 (thorough 4) x recycle {1,2,3} x timeout {0,1,3} virtual seconds, '
+    'drained, closed after k items or aborted by a consumer exception after k items (every k), under every schedule up to the preemption bound: every '
+    'execution terminates (deadlock and step horizon are violations), no virtual process is alive afterwards, each comparison takes <= timeout + 2 virtual '
+    'seconds (a dead worker is reported within one poll), no worker serves more replays than the recycle rate and exactly the implied number of workers is '
+    'started; thorough adds real-process runs (children gone within 1 s, wall time within timeout + slack).',
+    'Time bounds are decided in virtual time; real-time behaviour only in the thorough conformance runs; garbage-collected generators are closed by CPython.')
+
 NOT_YET = {}
 
 
